@@ -157,7 +157,7 @@ func panicSite() string {
 // followUps: whatever a decoder ACCEPTED has to be usable: the operations a caller runs next on the loaded trie — proofs
 // for the first and the last block, path exports, an update, deletes, root — must not panic (errors are fine). The
 // results are not part of the op's output (oracle only).
-func followUps(i int, x *CaseResult, obsTags map[string]bool, what string, t *wmpt.WeightedMerkleTrie, input []byte) {
+func followUps(i int, x *CaseResult, what string, t *wmpt.WeightedMerkleTrie, input []byte) {
 	h := sha3sum(input)
 	k1 := append([]byte(nil), h...)
 	k3 := bytes.Repeat([]byte{0x11}, 32)
@@ -179,14 +179,6 @@ func followUps(i int, x *CaseResult, obsTags map[string]bool, what string, t *wm
 			f()
 		}()
 		if pv != nil {
-			if strings.HasSuffix(site, ".insert") && strings.Contains(fmt.Sprint(pv), "slice bounds out of range") {
-				// What HEAD does not satisfy (observation, reported with a patch; notes/C15wmpt.md): Update with a key that is a
-				// proper prefix of a short node's key (a short key longer than a key: accepted by the importers) slices the key
-				// past its end in insert's split case.
-				obsTags["obs:Update-panics-when-the-key-ends-inside-a-short-node-key"] = true
-				stop = true
-				return
-			}
 			x.Fails = append(x.Fails, fmt.Sprintf("op %d: %s accepted the input, then %s panicked on the loaded trie: %v (in %s)", i, what, name, pv, site))
 			stop = true
 		}
@@ -313,7 +305,7 @@ func runC15Wmpt(ops []string) CaseResult {
 				return "ok " + hx(h) + " " + hxOrDash(v)
 			})
 			if loaded != nil && strings.HasPrefix(out, "ok") {
-				followUps(i, &res, tags, "VerifyBlockProof", loaded, data)
+				followUps(i, &res, "VerifyBlockProof", loaded, data)
 			}
 		case "dtrie":
 			data := unhx(f[1])
@@ -334,7 +326,7 @@ func runC15Wmpt(ops []string) CaseResult {
 				return fmt.Sprintf("ok %x %d %s", t.Root(), t.Weight(), descNodeBytes(ser))
 			})
 			if loaded != nil && strings.HasPrefix(out, "ok") && loaded.GetRoot() != nil {
-				followUps(i, &res, tags, "Deserialize", loaded, data)
+				followUps(i, &res, "Deserialize", loaded, data)
 			}
 		default:
 			panic("unknown op " + op)
